@@ -36,6 +36,9 @@ func runC03(p *load.Program, r *oblig.Report) {
 	c03CommitMessages(p, r)
 	c03NextGeneration(p, r)
 	c03Readers(p, r)
+	// a record of the new generation must not be dropped as stale, nor an old one delivered: the version filter of
+	// FetchMessage (shared with C02.R7)
+	c02ReaderAs(p, r, "C03.R10 records of the current generation are delivered, older ones dropped")
 }
 
 // edgeConds renders, for each predecessor edge of b, the canonical condition that holds on it.
@@ -454,8 +457,36 @@ func c03FinalCommit(p *load.Program, r *oblig.Report, rule string, fn *ssa.Funct
 	r.Check(okDrain && okLoop, rule, "kafka."+name+" drains pending requests before the final commit", p.Pos(drain.Pos()), "for { select { case req := <-r.commits: merge; default: stop } } then commit", fmt.Sprintf("nonBlockingReceiveFromCommits=%v mergeLoopsBackToSelectBeforeCommit=%v", okDrain, okLoop))
 }
 
+// replyChannelBuffered: the commit loop answers with a plain send (`req.errch <- err`); the requester may have left
+// (its context ended), so the reply channel must be able to hold the answer or the loop blocks for ever.
+func replyChannelBuffered(p *load.Program, r *oblig.Report, rule string) {
+	fn := p.Func("", "(*Reader).CommitMessages")
+	if fn == nil {
+		r.Lost(rule, "kafka.(*Reader).CommitMessages")
+		return
+	}
+	n := 0
+	okBuf := true
+	found := ""
+	an.EachInstr(fn, func(ins ssa.Instruction) {
+		mk, ok := ins.(*ssa.MakeChan)
+		if !ok || !strings.HasSuffix(typeShort(mk.Type()), "chan error") {
+			return
+		}
+		n++
+		k, isK := an.ConstInt(mk.Size)
+		found = clean(an.Shape(mk.Size))
+		if !isK || k < 1 {
+			okBuf = false
+		}
+	})
+	// … unless every send on it in the commit loops is inside a select with another ready arm (not the case today)
+	r.Check(n >= 1 && okBuf, rule, "kafka.(*Reader).CommitMessages creates the reply channel with room for the answer", p.Pos(fn.Pos()), "make(chan error, 1): the commit loop's send never blocks on a requester that gave up", "capacity "+found)
+}
+
 func c03CommitMessages(p *load.Program, r *oblig.Report) {
 	const rule = "C03.R7 synchronous CommitMessages reports the commit's result"
+	replyChannelBuffered(p, r, rule)
 	fn := p.Func("", "(*Reader).CommitMessages")
 	if fn == nil {
 		r.Lost(rule, "kafka.(*Reader).CommitMessages")
